@@ -93,6 +93,8 @@ def check_raw_writes(ctx, cfg):
     n = 0
     for b in db.bodies:
         if b["kind"] in ("Fn", "AssocFn"):
+            if ctx.is_helper(cfg, b):
+                continue   # a private helper writes into whatever its caller hands it: judged expanded in its callers, where the owner is known
             n += raw_write_discipline(ctx, cfg, b, "C04.W")
     return n
 
@@ -306,7 +308,7 @@ def check(ctx):
                    "values moved into a caller closure are dropped by that closure's frame"]
     ctx.assumptions = ["overflow checks on position arithmetic are not foreign code (positions are bounded by N)",
                        "a panic while dropping the caller's closure object F itself is outside the property's quantifier"]
-    cfgs = ["F0", "F1"] if ctx.tier == "quick" else ["F0", "F1", "F2"]
+    cfgs = ["F0", "F1", "F1N"] if ctx.tier == "quick" else ["F0", "F1", "F1N", "F2", "F0N", "F2N"]
     ctx.need(*cfgs)
     for cfg in cfgs:
         verify_models(ctx, cfg)
